@@ -226,13 +226,24 @@ func runC16(c *Ctx) {
 				if !ok || exprStr(call.Fun) != "append" {
 					return true
 				}
-				// appends of join selectors: argument mentions .Src.Selector
-				if !strings.Contains(exprStr(call), ".Src.Selector") {
+				// appends of join selectors: the argument reads Source.Selector through a Join's Src
+				viaJoin := false
+				ast.Inspect(call, func(m ast.Node) bool {
+					if sel, ok := m.(*ast.SelectorExpr); ok && fieldSel(ginfo, sel, "internal/parser/utils.Source", "Selector") && fieldSel(ginfo, sel.X, "internal/parser/utils.Join", "Src") {
+						viaJoin = true
+					}
 					return true
+				})
+				if !viaJoin {
+					return true
+				}
+				isOwnJoins := func(e ast.Expr) bool {
+					sel, ok := ast.Unparen(e).(*ast.SelectorExpr)
+					return ok && lv != nil && fieldSel(ginfo, sel, "internal/parser/utils.Source", "Joins") && isObj(ginfo, sel.X, ginfo.Defs[lv])
 				}
 				inJoins := false
 				for cur := pmG[as]; cur != nil && cur != ast.Node(outer); cur = pmG[cur] {
-					if rs, ok := cur.(*ast.RangeStmt); ok && lv != nil && exprStr(rs.X) == lv.Name+".Joins" {
+					if rs, ok := cur.(*ast.RangeStmt); ok && isOwnJoins(rs.X) {
 						inJoins = true
 					}
 				}
@@ -255,9 +266,17 @@ func runC16(c *Ctx) {
 				// the guard must be about the source's joins, not only the join's own selector nil test
 				perSource := false
 				for _, g := range lexicalGuards(pmG, as, outer) {
-					if strings.Contains(exprStr(g.E), "joinHasFallback(") && strings.Contains(exprStr(g.E), lv.Name+".") {
-						perSource = true
-					}
+					// a predicate over this source's own joins (today: !joinHasFallback(ls.Joins))
+					ast.Inspect(g.E, func(m ast.Node) bool {
+						if cl, ok := m.(*ast.CallExpr); ok {
+							for _, a := range cl.Args {
+								if isOwnJoins(a) {
+									perSource = true
+								}
+							}
+						}
+						return true
+					})
 				}
 				if !dep || !perSource {
 					okAll = false
